@@ -31,7 +31,9 @@ def generate(T, tier):
     hs = []
     for mod, sb in (("gps1059", 6), ("glo1065", 5)):
         num = mod[3:]
-        hs.append({"name": "c16::%s::one" % mod, "group": "main", "tier": "quick", "bounds": "%s: one entry, satellite over all u8, every recognised signal, every f32 bias bit pattern" % num})
+        for inst, t in (("sat0", "quick"), ("sat1", "thorough"), ("sat_mid", "thorough"), ("sat_max", "quick"), ("sat_over", "quick"), ("sat_255", "thorough")):
+            hs.append({"name": "c16::%s::one_%s" % (mod, inst), "group": "main", "tier": t,
+                       "bounds": "%s: one entry on a concrete satellite id (%s), every recognised signal, every f32 bias bit pattern" % (num, inst)})
         hs.append({"name": "c16::%s::pattern" % mod, "group": "main", "tier": "quick", "bounds": "%s: all 2^14 bias patterns decode and re-encode to themselves" % num})
         hs.append({"name": "c16::%s::all_satellites" % mod, "group": "wide", "tier": "quick", "bounds": "%s: one entry on every satellite id of the range (count-field boundary): Err or all entries come back" % num})
         sig_id = T.ssr[num][0][0]
@@ -70,14 +72,14 @@ pub fn capacity_%(num)s() {
     gen.write_gen("c16_list.rs", "use crate::util::*;\n" + "\n".join(code))
     return {
         "harnesses": hs,
-        "groups": {"main": {"features": ["c16"], "timeout_s": 2400, "unwindset": [["try_from_fn_erased", 392]]}, "wide": {"features": ["c16"], "timeout_s": 3000, "unwindset": [["try_from_fn_erased", 392]]}, "cap": {"features": ["c16"], "timeout_s": 3300, "unwindset": [["try_from_fn_erased", 392]]}},
+        "groups": {"main": {"features": ["c16"], "est_gb": 7, "timeout_s": 2400, "unwindset": [["try_from_fn_erased", 392]]}, "wide": {"features": ["c16"], "est_gb": 8, "timeout_s": 3000, "unwindset": [["try_from_fn_erased", 392]]}, "cap": {"features": ["c16"], "est_gb": 10, "timeout_s": 3300, "unwindset": [["try_from_fn_erased", 392]]}},
         "level": "model_checking",
         "functions": ["df::dfs::df_msg1059_biases::{encode,decode}", "df::dfs::df_msg1065_biases::{encode,decode}", "df::dfs::df_msg1230_biases::{encode,decode}"],
-        "bounds": {"one": "single entry fully symbolic", "group": "3 entries on 6 (1059) / 4 (1065) concrete satellite arrangements, signals and biases symbolic",
+        "bounds": {"one": "single entry: satellite id from {0, 1, mid, max, max+1, 255}, signal and bias symbolic", "group": "3 entries on 6 (1059) / 4 (1065) concrete satellite arrangements, signals and biases symbolic",
                    "count_wrap": "64 satellites (1059) / 32 (1065)", "capacity": "13 x 31 = 403 announced entries", "1230": "all subsets and orders of the 4 signals"},
         "outside": ["more than 3 entries with symbolic signals in one query; more than 31 entries per satellite (needs duplicate signals, outside the property's precondition)"],
         "assumptions": ["SSR signal tables in spec.rs typed from RTCM 10403.3"],
-        "samples": [{"harness": "c16::gps1059::one", "symbolic": {"sat": "u8", "signal": "index into reference table", "bias": "all f32 bits"},
+        "samples": [{"harness": "c16::gps1059::one_sat_max", "symbolic": {"sat": "63", "signal": "index into reference table", "bias": "all f32 bits"},
                      "asserts": "Err iff sat > 63; else wire fields, decode returns exactly that entry, bias nearest grid value for in-range input, re-encode identical"}],
         "explanation": "The hand-written list codecs are symbolically executed on small lists with symbolic content plus boundary families for the count fields and the capacity.",
     }
